@@ -70,6 +70,21 @@ def error_discipline(ctx, bodies, rule='P8'):
                      c.span, nontrivial=True,
                      key=ctx.key(b.name, rule, name, ','.join(sorted(set(bad)))) if not ok else
                      ctx.key(b.name, rule, name, 'ok'))
+        # Result implements IntoIterator (0 or 1 item): flat_map / flatten over Results silently drops every Err (seeds C13-e, C14-k,
+        # C15-i).  The generic arguments of the adapter say what is being flattened
+        for c in q.calls(b):
+            if c.callee in ('std::iter::Iterator::flat_map', 'std::iter::Iterator::flatten') and c.fn:
+                ga = c.fn.get('args') or []
+                inner = ga[1] if c.callee.endswith('flat_map') and len(ga) > 1 else (ga[0] if ga else '')
+                if c.callee.endswith('flatten'):
+                    inner = ga[0] if ga else ''
+                    swallow = 'Item = std::result::Result<' in inner or inner.rstrip('>').endswith('error::AsepriteParseError') and 'Result<' in inner
+                else:
+                    swallow = q.ty_is_result(inner)
+                if swallow:
+                    n += 1
+                    ctx.inst(rule, '%s -> %s' % (b.name, c.callee.split('::')[-1]), False, '%s flattens Result values (%s): every Err is dropped '
+                             'without a trace' % (c.callee.split('::')[-1], inner[:70]), c.span, key=ctx.key(b.name, rule, c.callee, 'swallows'))
     return n
 
 
